@@ -81,6 +81,9 @@ def nest(rng, out):
     return out[:i] + ["oncb %s %d" % (out[i].split(" ")[1], n)] + out[i + 1:i + 1 + n] + [out[i]] + out[i + 1 + n:]
 
 
+RECYCLE_ENV = {"ASAN_OPTIONS": vlib.ASAN_ENV["ASAN_OPTIONS"] + ":quarantine_size_mb=0:thread_local_quarantine_size_kb=0:max_malloc_fill_size=0"}
+
+
 def workload(tier, rng):
     groups = []
     ngroups = 700 if tier == "quick" else 12000
@@ -156,7 +159,10 @@ def run(pid, tier):
                 solos += g[1]
             with open(sb, "w") as f:
                 f.write(gen.join(solos))
-            it = vlib.run_driver(drv, ib, os.path.join(bdir, "ind_inter_%02d.ndjson" % idx))
+            # the interleaved run recycles freed heap blocks at once and does not scrub fresh ones (no quarantine, no
+            # fill): a control block or table that a new session inherits from a released one then still holds the
+            # old session's bytes, as it would under a production allocator; the solo runs start from a fresh process
+            it = vlib.run_driver(drv, ib, os.path.join(bdir, "ind_inter_%02d.ndjson" % idx), env=RECYCLE_ENV)
             so = vlib.run_driver(drv, sb, os.path.join(bdir, "ind_solo_%02d.ndjson" % idx), env={"OF_DRIVER_FORK_EACH": "1"})
             # plumbing only: group the two traces execution by execution
             def split(path):
@@ -219,6 +225,7 @@ def run(pid, tier):
         }
         vlib.write_evidence(pid, tier, "model_checking", cov, time.time() - t0, len(verdict.violations),
                             ["solo runs use a forked process per execution, so library globals are pristine",
+                             "the interleaved runs of the comparison recycle freed heap blocks immediately (ASan without quarantine and fill)",
                              "hidden Reed-Solomon encoder sessions created by the driver are part of both runs"])
         return rc
     finally:
